@@ -24,4 +24,28 @@ PROPS = {
         "rule": "complete cross product of the 28-value boundary alphabet in three arguments of each of the 9 float constructors, boundary amounts for every adjustment, boundary fractions for mixing, random arguments; every produced colour goes through the validity oracle; all counted cases are non-trivial (boundary or random arguments)",
         "trust": ["that float rounding never pushes a derived channel outside [0,1] by more than 1e-12 is observed, not proved"],
     },
+    "C06": {
+        "rule": "random and structured colours (HSL-float and 8-bit) x amounts (in range, overshooting, negative, 0, below one ulp, huge); each adjustment on implementation and model; clause-by-clause oracle incl. luminance monotonicity along l-lines; non-trivial = non-zero amount on a chromatic colour strictly inside the lightness range",
+        "trust": ["luminance monotonicity under lighten/darken is searched (1e-12 noise allowance), not proved"],
+    },
+    "C07": {
+        "rule": "structured pairs (grays, primaries, antipodal hues 179.9/180/180.1, translucent) and random 8-bit / HSL-float pairs x 6 spaces x fractions {0,1,-1,2,NaN,dyadic,random}; non-trivial = distinct operands and 0<f<1",
+        "trust": ["the 'at most 1 per channel under swap' clause and endpoint exactness in Lab/LCh/OkLab are float statements: enumerated, not proved"],
+    },
+    "C09": {
+        "rule": "oracle on a lattice of every 2nd level per channel (quick, 2^21 colours) or all 2^24 (thorough): strict monotonicity in each channel, text colour, to_gray; contrast on structured and random pairs; all cases distinct by construction",
+        "trust": ["luminance is evaluated through libm pow; the 0.179 threshold comparison on floats is enumerated"],
+    },
+    "C10": {
+        "rule": "alpha boundary alphabet through every constructor; unary transformations on translucent colours; 7 formatters; compositing on random, same-colour, opaque-source and transparent-source pairs with alpha grid {0,1,1e-9,1-1e-9,k/255,random}; non-trivial = alpha != 1",
+        "trust": ["that float rounding of the blended quotient never crosses a half is enumerated, not proved"],
+    },
+    "C11": {
+        "rule": "Lab pairs: the 34 published Sharma pairs, uniform, far-out (1e4), zero-chroma, near hue-difference 180, mean-hue wrap-around, chroma near 25, hue near 275; each pair: cie76, ciede2000 (code vs line-by-line model) and ciede2000 vs the independently written Sharma formula (abs tol 1e-3); non-trivial = distinct points",
+        "trust": ["agreement with Sharma et al. within 0.001 is checked numerically on the generated pairs against the model's independent formula; exact 180-degree hue differences are exempt as in the property"],
+    },
+    "C20": {
+        "rule": "oracle on every 3rd level per channel (quick) / all 2^24 (thorough) x 3 types: alpha, black, retained cones; correspondence with the Lean model as the independent evaluation on a lattice + random HSL-float colours (8-bit channels within one step = property, exact = tie)",
+        "trust": ["the independent evaluation is the Lean model read at Float"],
+    },
 }
